@@ -38,7 +38,8 @@ PROPS = {
         'notes': ['full statement refuted by known finding KF-1 (standalone PREPREPARE in a view above 0); proved theorem is the partial one'],
     },
     'C08': {
-        'engines': [{'name': 'world', 'quick_args': ['-n', '60'], 'thorough_args': ['-n', '1200']}],
+        'engines': [{'name': 'world', 'quick_args': ['-n', '60'], 'thorough_args': ['-n', '1200']}, {'name': 'filter'}],
+        'also_report': ('C17',),
         'corr_modules': ['Term'],
         'trusted_base': ['theorems in coq/props/C08.v about coq/theories/Term.v (proofs in TermFacts.v)'],
         'assumptions': COMMON_ASSUME + ['signature flags as in C07', 'membership = ids of the committee returned by Membership for the height'],
